@@ -1153,6 +1153,8 @@ _BASIC_CONVERTERS: t.Dict[type, Converter[t.Any]] = {
     complex: ScalarConverter(complex, (int, float, complex), 'a complex float', 'complex floats', complex),
     float: ScalarConverter(float, (int, float), 'a float', 'floats', float),
     int: ScalarConverter(int, int, 'an int', 'ints', int),
+    # without its own entry, bool is treated as a subclass of int, and any int is coerced (5 -> True)
+    bool: ScalarConverter(bool, bool, 'a bool', 'bools'),
     str: ScalarConverter(str, str, 'a string', 'strings', str),
     bytes: ScalarConverter(bytes, (bytes, bytearray), 'a bytestring', 'bytestrings'),
     bytearray: ScalarConverter(bytearray, (bytes, bytearray), 'a bytearray', 'bytearrays'),
